@@ -618,10 +618,11 @@ def run_stack_in(s0, cs, meta, tmpdir):
 
 # ------------------------------------------------------------------------------------ (d) repr
 class HBatch(BatchBase):
-    def __init__(self, on_flush=None, fail=False):
+    def __init__(self, on_flush=None, fail=False, fail_with="flush failed"):
         BatchBase.__init__(self)
         self.on_flush = on_flush
         self.fail = fail
+        self.fail_with = fail_with
 
     def _try_switch_active_batch(self):
         pass
@@ -630,7 +631,7 @@ class HBatch(BatchBase):
         if self.on_flush:
             self.on_flush(self)
         if self.fail:
-            raise Boom("flush failed")
+            raise Boom(self.fail_with)
         for it in self.items:
             if not it.skip:
                 it.set_value(it.k)
@@ -654,10 +655,228 @@ def tsk(x=0):
 
 
 @asynq_dec()
-def tsk_fail():
+def tsk_fail(x="t"):
     yield None
-    raise Boom("t")
+    raise Boom(x)
 
+
+def task_returning(v):
+    """tsk.asynq(v); a string with a line break is not passed as an argument (the task line quotes
+    str(argument), which would break the line structure of dump())."""
+    if isinstance(v, str) and "\n" in v:
+        @asynq_dec()
+        def tsk_nl():
+            yield None
+            return v
+        return tsk_nl.asynq()
+    return tsk.asynq(v)
+
+
+def task_failing(v):
+    if isinstance(v, str) and "\n" in v:
+        @asynq_dec()
+        def tsk_fail_nl():
+            yield None
+            raise Boom(v)
+        return tsk_fail_nl.asynq()
+    return tsk_fail.asynq(v)
+
+
+# ---- user payloads (Diag.pval): the value a future holds, the argument its error was built with
+class Multi(object):
+    """A value with a well-behaved repr that spans several lines (like a table or an array)."""
+    TEXT = "Multi(\n  rows=2\n)"
+    FLAT = "Multi(<NL>  rows=2<NL>)"      # parse_dump joins the lines debug.write indented
+
+    def __repr__(self):
+        return Multi.TEXT
+
+    def __eq__(self, other):
+        return isinstance(other, Multi)
+
+    def __hash__(self):
+        return 7
+
+
+def mkval(p):
+    k, a = ctor(p)
+    if k == "PInt":
+        return int(a[0])
+    if k == "PNone":
+        return None
+    if k == "PStr":
+        return a[0]["s"]
+    if k == "PMulti":
+        return Multi()
+    if k == "PTuple":
+        return tuple(mkval(x) for x in a[0])
+    if k == "PList":
+        return [mkval(x) for x in a[0]]
+    if k == "PDict":
+        return {mkval(kv[""][0]): mkval(kv[""][1]) for kv in a[0]}
+    if k == "PFut":
+        return ConstFuture(1) if a[0] == "true" else ErrorFuture(Boom("n"))
+    raise ValueError(k)
+
+
+def tree_of(v, owner=None):
+    """The pval tree of a live payload."""
+    if owner is not None and v is owner:
+        return "PSelf"
+    if v is None:
+        return "PNone"
+    if isinstance(v, bool):
+        return {"PUnknown": [S("bool")]}
+    if isinstance(v, int):
+        return {"PInt": [v]}
+    if isinstance(v, str):
+        return {"PStr": [S(v)]}
+    if isinstance(v, Multi):
+        return "PMulti"
+    if isinstance(v, tuple):
+        return {"PTuple": [[tree_of(x) for x in v]]}
+    if isinstance(v, list):
+        return {"PList": [[tree_of(x) for x in v]]}
+    if isinstance(v, dict):
+        return {"PDict": [[{"": [tree_of(k), tree_of(x)]} for k, x in v.items()]]}
+    if isinstance(v, ConstFuture):
+        return {"PFut": ["true"]}
+    if isinstance(v, ErrorFuture):
+        return {"PFut": ["false"]}
+    return {"PUnknown": [S(type(v).__name__)]}
+
+
+def err_arg(e):
+    """The payload an exception was built with: its one argument, else the tuple of its arguments."""
+    return e.args[0] if len(e.args) == 1 else tuple(e.args)
+
+
+class _PV(object):
+    """Reads the text of repr(payload) back into a pval tree (literals, containers, and the
+    fixed texts of Multi / a computed ConstFuture(1) / ErrorFuture(Boom('n')) / '= self')."""
+    _str = re.compile(r"""'(?:[^'\\]|\\.)*'|"(?:[^"\\]|\\.)*\"""", re.S)
+    _int = re.compile(r"-?\d+")
+    _fixed = [
+        (re.compile(r"Multi\(\n  rows=2\n\)|" + re.escape(Multi.FLAT)), "PMulti"),
+        (re.compile(r"<class '[\w.]*ConstFuture'> \(computed, = 1\)"), {"PFut": ["true"]}),
+        (re.compile(r"<class '[\w.]*ErrorFuture'> \(computed, error = Boom\('n'\)\)"), {"PFut": ["false"]}),
+        (re.compile(r"<class '[\w.<>]+'> \(computed, = self\)"), "PSelf"),
+        (re.compile(r"None"), "PNone"),
+    ]
+
+    def __init__(self, text):
+        self.t = text
+        self.i = 0
+
+    def fail(self):
+        raise ValueError("cannot read %r at %d" % (self.t[:60], self.i))
+
+    def lit(self, x):
+        if self.t.startswith(x, self.i):
+            self.i += len(x)
+            return True
+        return False
+
+    def seq(self, close):
+        """items separated by ', ' up to `close`; returns (items, ended with ',' + close)"""
+        items = []
+        if self.lit(close):
+            return items, False
+        while True:
+            items.append(self.val())
+            if self.lit(close):
+                return items, False
+            if self.lit(", "):
+                continue
+            if self.lit("," + close):
+                return items, True
+            self.fail()
+
+    def val(self):
+        for rx, tree in self._fixed:
+            m = rx.match(self.t, self.i)
+            if m:
+                self.i = m.end()
+                return tree
+        m = self._str.match(self.t, self.i)
+        if m:
+            import ast
+            self.i = m.end()
+            return {"PStr": [S(ast.literal_eval(m.group(0)))]}
+        m = self._int.match(self.t, self.i)
+        if m:
+            self.i = m.end()
+            return {"PInt": [int(m.group(0))]}
+        if self.lit("("):
+            items, one = self.seq(")")
+            if len(items) == 1 and not one:
+                self.fail()
+            return {"PTuple": [items]}
+        if self.lit("["):
+            items, _ = self.seq("]")
+            return {"PList": [items]}
+        if self.lit("{"):
+            kvs = []
+            while not self.lit("}"):
+                if kvs and not self.lit(", "):
+                    self.fail()
+                k = self.val()
+                if not self.lit(": "):
+                    self.fail()
+                kvs.append({"": [k, self.val()]})
+            return {"PDict": [kvs]}
+        self.fail()
+
+
+def parse_val(text):
+    try:
+        p = _PV(text)
+        v = p.val()
+        if p.i != len(text):
+            p.fail()
+        return v
+    except (ValueError, SyntaxError, RecursionError):
+        return {"PUnparsed": [S(text[:80])]}
+
+
+def parse_err(text):
+    """'Boom(<args>)' -> the payload the exception was built with."""
+    m = re.match(r"^[\w.]+\((.*)\)$", text, re.S)
+    if not m:
+        return {"PUnparsed": [S(text[:80])]}
+    try:
+        p = _PV(m.group(1) + ")")
+        items, _ = p.seq(")")
+        if p.i != len(p.t):
+            p.fail()
+    except (ValueError, SyntaxError, RecursionError):
+        return {"PUnparsed": [S(text[:80])]}
+    return items[0] if len(items) == 1 else {"PTuple": [items]}
+
+
+def parse_shown(text, live, conv):
+    """The payload a text shows where conv(payload) was put: the live payload if the text is
+    exactly conv(live) (str() of a string has no quotes to read back), else whatever it reads as."""
+    if live is not _NOTHING:
+        try:
+            if text == conv(live):
+                return tree_of(live)
+        except Exception:
+            pass
+    return parse_val(text)
+
+
+_NOTHING = object()
+_installed = {}      # id(override context) -> (context, the value it installs): its attributes are not readable in the compiled build
+
+
+def override_of(ctx, v):
+    _installed[id(ctx)] = (ctx, v)
+    return ctx
+
+
+def installed_value(ctx):
+    return _installed[id(ctx)][1] if id(ctx) in _installed else getattr(ctx, "_value", None)
 
 FUT_CLASSES = {"CFutureBase", "CFuture", "CConstFuture", "CErrorFuture", "CBatchItem", "CDebugBatchItem"}
 _dbg_counter = [0]
@@ -666,14 +885,15 @@ _dbg_counter = [0]
 def apply_out(f, o):
     if f.is_computed():
         f.reset_unsafe()
-    if o == "Unc":
+    k, a = ctor(o)
+    if k == "Unc":
         return
-    if o == "OkV":
-        f.set_value(3)
-    elif o == "OkSelf":
+    if k == "OkV":
+        f.set_value(mkval(a[0]))
+    elif k == "OkSelf":
         f.set_value(f)
-    elif o == "ErrV":
-        f.set_error(Boom("e"))
+    elif k == "ErrV":
+        f.set_error(Boom(mkval(a[0])))
     else:
         raise ValueError(o)
 
@@ -743,12 +963,13 @@ def build(t, batch=None):
         return s
     if k == "OScoped":
         c = a[0]
+        v = mkval(a[1])
         if c == "CScopedValue":
-            return AsyncScopedValue(1)
+            return AsyncScopedValue(v)
         if c == "CSVOverride":
-            return AsyncScopedValue(1).override(2)
+            return override_of(AsyncScopedValue(1).override(v), v)
         if c == "CPropOverride":
-            return async_override(Holder(), "p", 2)
+            return override_of(async_override(Holder(), "p", v), v)
         raise ValueError(c)
     if k == "OAGen":
         @async_generator()
@@ -758,7 +979,7 @@ def build(t, batch=None):
         gen.is_stopped = (a[0] == "true")
         return gen
     if k == "OValue":
-        return Value(3)
+        return Value(mkval(a[0]))
     raise ValueError(k)
 
 
@@ -770,11 +991,11 @@ def observe(x, depth=0):
         if not x.is_computed():
             o = "Unc"
         elif x.error() is not None:
-            o = "ErrV"
+            o = {"ErrV": [tree_of(err_arg(x.error()))]}
         elif x.value() is x:
             o = "OkSelf"
         else:
-            o = "OkV"
+            o = {"OkV": [tree_of(x.value())]}
         if isinstance(x, AsyncTask):
             return {"OTask": [o, x.iteration_index, "true" if x._generator is not None else "false",
                               [observe(d, depth + 1) for d in x._dependencies]]}
@@ -798,21 +1019,23 @@ def observe(x, depth=0):
         return {"OSched": [[observe(t, depth + 1) for t in x._tasks], [observe(b, depth + 1) for b in x._batches],
                            "None" if x.active_task is None else {"Some": [observe(x.active_task, depth + 1)]}]}
     if isinstance(x, AsyncScopedValue):
-        return {"OScoped": ["CScopedValue"]}
+        return {"OScoped": ["CScopedValue", tree_of(x.get())]}
     if type(x).__name__ == "_AsyncScopedValueOverrideContext":
-        return {"OScoped": ["CSVOverride"]}
+        return {"OScoped": ["CSVOverride", tree_of(installed_value(x))]}
     if type(x).__name__ == "_AsyncPropertyOverrideContext":
-        return {"OScoped": ["CPropOverride"]}
+        return {"OScoped": ["CPropOverride", tree_of(installed_value(x))]}
     if type(x).__name__ == "_AsyncGenerator":
         return {"OAGen": ["true" if x.is_stopped else "false"]}
     if isinstance(x, Value):
-        return "OValue"
+        return {"OValue": [tree_of(x.value)]}
     return {"Unknown": [S(type(x).__name__)]}
 
 
 # ---- parsing of the printed forms back into summaries
+# the status follows the ")" that closes the call text (a payload among the arguments or in the status can
+# itself contain "(computed, = ..)": the repr of a future)
 _task_re = re.compile(
-    r"^@asynq .*\((computed, = .*|computed, error = .*|blocked x(\d+)|waiting|almost finished \(generator is closed\)), "
+    r"^@asynq .*?\) \((computed, = .*|computed, error = .*|blocked x(\d+)|waiting|almost finished \(generator is closed\)), "
     r"(before 1st yield|passed yield #(-?\d+))\)$", re.S)
 _batch_re = re.compile(r"^[\w.<>]+ \((cancelled|flushed|pending), (\d+) items\)$")
 _sched_re = re.compile(r"^<class 'asynq\.scheduler\.TaskScheduler'> '.*?' \((\d+) tasks, (\d+) batches; active task: (.*)\)$", re.S)
@@ -820,7 +1043,17 @@ _fut_re = re.compile(r"^<class '[\w.<>]+'> \((.*)\)$", re.S)
 _agen_re = re.compile(r"^<@async_generator\(\) <generator object .*> (stopped|)>$", re.S)
 
 
-def parse_summary(s):
+_sv_re = re.compile(r"^AsyncScopedValue\((.*)\)$", re.S)
+_ov_re = re.compile(r"^_AsyncScopedValueOverrideContext\(target=AsyncScopedValue\(1\), value=(.*)\)$", re.S)
+# while the override is active its target holds the same value
+_ov_active_re = re.compile(r"^_AsyncScopedValueOverrideContext\(target=AsyncScopedValue\((.*)\), value=\1\)$", re.S)
+_pov_re = re.compile(r"^_AsyncPropertyOverrideContext\(target=<[^>]*>, property_name='p', value=(.*)\)$", re.S)
+_val_re = re.compile(r"^<Value: (.*)>$", re.S)
+
+
+def parse_summary(s, live=_NOTHING, conv=repr):
+    """The Diag.summary a printed text amounts to; which payload it shows is read back out of the
+    text (live/conv: see parse_shown; only used for the scoped value, whose str() shows str(value))."""
     if not isinstance(s, str):
         return {"NotStr": [S(type(s).__name__)]}
     m = _sched_re.match(s)
@@ -831,9 +1064,9 @@ def parse_summary(s):
     if m:
         st = m.group(1)
         if st.startswith("computed, = "):
-            status = "TOk"
+            status = {"TOk": [parse_val(st[len("computed, = "):])]}
         elif st.startswith("computed, error = "):
-            status = "TErr"
+            status = {"TErr": [parse_err(st[len("computed, error = "):])]}
         elif st.startswith("blocked x"):
             status = {"TBlocked": [int(m.group(2))]}
         elif st == "waiting":
@@ -853,29 +1086,38 @@ def parse_summary(s):
         if st == "computed, = self":
             return {"SFuture": ["FSelf"]}
         if st.startswith("computed, = "):
-            return {"SFuture": ["FOk"]}
+            return {"SFuture": [{"FOk": [parse_val(st[len("computed, = "):])]}]}
         if st.startswith("computed, error = "):
-            return {"SFuture": ["FErr"]}
-    if s.startswith("AsyncScopedValue("):
-        return "SScoped"
-    if s.startswith("_AsyncScopedValueOverrideContext(target="):
-        return "SOverride"
-    if s.startswith("_AsyncPropertyOverrideContext(target="):
-        return "SPropOverride"
+            return {"SFuture": [{"FErr": [parse_err(st[len("computed, error = "):])]}]}
+    m = _sv_re.match(s)
+    if m:
+        return {"SScoped": [parse_shown(m.group(1), live, conv)]}
+    m = _ov_re.match(s) or _ov_active_re.match(s)
+    if m:
+        return {"SOverride": [parse_val(m.group(1))]}
+    m = _pov_re.match(s)
+    if m:
+        return {"SPropOverride": [parse_val(m.group(1))]}
     m = _agen_re.match(s)
     if m:
         return {"SAGen": ["true" if m.group(1) == "stopped" else "false"]}
-    if s.startswith("<Value: "):
-        return "SValue"
+    m = _val_re.match(s)
+    if m:
+        return {"SValue": [parse_val(m.group(1))]}
     return {"Unparsed": [S(s[:100])]}
 
 
+CUT_AT = 240      # debug.options.DEBUG_STR_REPR_MAX_LENGTH
 _DUMP_FIXED = {"Dependencies:": "DDeps", "No dependencies.": "DNoDeps", "Items:": "DItems", "No items.": "DNoItems",
                "Task queue:": "DTaskQueue", "No tasks in task queue.": "DNoTasks", "Batches:": "DBatches", "...": "DEllipsis"}
 
 
+_multi_in_dump = re.compile(r"Multi\(\n *  rows=2\n *\)")
+
+
 def parse_dump(text):
     lines = []
+    text = _multi_in_dump.sub(Multi.FLAT, text)     # debug.write indents the lines of a multi-line text
     for ln in text.split("\n")[:-1] if text.endswith("\n") else text.split("\n"):
         body = ln.lstrip(" ")
         nsp = len(ln) - len(body)
@@ -888,15 +1130,43 @@ def parse_dump(text):
             d = "DPriority"
         elif body.startswith("<n/a: str(...) raised"):
             d = {"DObj": ["None"]}
+        elif len(body) == CUT_AT and body.endswith("..."):
+            d = "DCut"
         else:
             d = {"DObj": [{"Some": [parse_summary(body)]}]}
         lines.append({"": [nsp // 2, d]})
     return lines
 
 
+def holds(obj):
+    """(role, payload) of what obj holds and its printed forms have to show; None if nothing."""
+    if isinstance(obj, FutureBase):
+        if not obj.is_computed():
+            return None
+        if obj.error() is not None:
+            return ("error", obj.error())
+        if obj.value() is obj:
+            return None
+        return ("value", obj.value())
+    if isinstance(obj, AsyncScopedValue):
+        return ("value", obj.get())
+    if type(obj).__name__ in ("_AsyncScopedValueOverrideContext", "_AsyncPropertyOverrideContext"):
+        return ("value", installed_value(obj))
+    if isinstance(obj, Value):
+        return ("value", obj.value)
+    return None
+
+
 def call3(obj):
     """str / repr / dump of obj: (results as Coq `res` trees, observation of what happened)."""
     obs = {"type": type(obj).__name__}
+    h = holds(obj)
+    live = _NOTHING
+    if h is not None:
+        # what a faithful text has to contain (user payloads have well-behaved reprs)
+        obs["holds"] = {"role": h[0], "repr": repr(h[1]), "str": str(h[1])}
+        if h[0] == "value":
+            live = h[1]
     outs = []
     for nm in ("str", "repr", "dump"):
         if nm == "dump" and not hasattr(obj, "dump"):
@@ -926,18 +1196,23 @@ def call3(obj):
             outs.append("Raised")
             obs[nm] = exc
         elif nm == "dump":
-            outs.append({"Returned": [parse_dump(buf.getvalue())]})
+            text = buf.getvalue()
+            outs.append({"Returned": [parse_dump(text)]})
             obs[nm] = "ok"
+            obs["dump_text"] = text[:4000]
+            obs["dump_first_cut"] = len(text.split("\n")[0]) == CUT_AT and text.split("\n")[0].endswith("...")
+            obs["dump_na_lines"] = len(re.findall(r"<n/a: (?:str|repr)\(\.\.\.\) raised", text))
         else:
-            outs.append({"Returned": [parse_summary(v)]})
+            outs.append({"Returned": [parse_summary(v, live, str if nm == "str" else repr)]})
             obs[nm] = "ok"
-            obs[nm + "_text"] = v[:160] if isinstance(v, str) else None
+            obs[nm + "_text"] = v[:4000] if isinstance(v, str) else None
     return {"RRepr": outs}, obs
 
 
 # ---- lifecycle cells: objects driven into a state through the public API only
-def cell(name):
-    """Calls k(obj) with the live object while it is in the named state; returns k's result."""
+def cell(name, v=3):
+    """Calls k(obj) with the live object while it is in the named state; returns k's result.
+    v: the payload every value / error argument / scoped value of the cell is made of."""
     res = []
 
     def k(obj):
@@ -950,23 +1225,23 @@ def cell(name):
         elif kind == "Future":
             def prov():
                 if state.startswith("err"):
-                    raise Boom("p")
-                return 5
+                    raise Boom(v)
+                return v
             f = Future(prov)
         elif kind == "ConstFuture":
-            f = ConstFuture(1)
+            f = ConstFuture(v)
         else:
-            f = ErrorFuture(Boom("x"))
+            f = ErrorFuture(Boom(v))
         if state == "fresh":
             pass
         elif state == "ok":
             if kind == "FutureBase":
-                f.set_value(3)
+                f.set_value(v)
             else:
                 f.value()
         elif state == "err":
             if kind == "FutureBase":
-                f.set_error(Boom("e"))
+                f.set_error(Boom(v))
             else:
                 f.error()
         elif state == "self":
@@ -980,7 +1255,7 @@ def cell(name):
         elif state == "reset-then-err":
             f.error() if kind != "FutureBase" else f.set_value(1)
             f.reset_unsafe()
-            f.set_error(Boom("again"))
+            f.set_error(Boom(v))
         else:
             raise ValueError(name)
         k(f)
@@ -988,11 +1263,11 @@ def cell(name):
         if state == "fresh":
             k(tsk.asynq(1))
         elif state == "ok":
-            t = tsk.asynq(1)
+            t = task_returning(v)
             t.value()
             k(t)
         elif state == "err":
-            t = tsk_fail.asynq()
+            t = task_failing(v)
             t.error()
             k(t)
         elif state == "reset":
@@ -1029,7 +1304,7 @@ def cell(name):
                 def inner():
                     k(me)
                     yield None
-                yield inner.asynq(), ConstFuture(1)
+                yield inner.asynq(), ConstFuture(v)
             body()
         elif state == "blocked-on-two":
             @asynq_dec()
@@ -1037,14 +1312,14 @@ def cell(name):
                 me = scheduler.get_active_task()
                 yield None
                 b = HBatch(on_flush=lambda b: k(me))
-                yield [HItem(b, 7), tsk.asynq(2), HItem(b, 8)]
+                yield [HItem(b, 7), task_returning(v), HItem(b, 8)]
             body()
         elif state == "in-on-computed":
-            t = tsk.asynq(1)
+            t = task_returning(v)
             t.on_computed.subscribe(lambda _t: k(t))
             t.value()
         elif state == "failed-in-on-computed":
-            t = tsk_fail.asynq()
+            t = task_failing(v)
             t.on_computed.subscribe(lambda _t: k(t))
             t.error()
         elif state == "cancelled-generator-exit":
@@ -1078,46 +1353,46 @@ def cell(name):
             k(DebugBatch("e") if dbg else HBatch())
         elif state == "pending":
             if dbg:
-                it = DebugBatchItem(nm, 3)
+                it = DebugBatchItem(nm, v)
                 pick(it.batch, it)
             else:
                 b = HBatch()
-                it = HItem(b, 1)
+                it = HItem(b, v)
                 HItem(b, 2)
                 pick(b, it)
         elif state == "flushing":
             if dbg:
                 # DebugBatch._flush cannot be observed from inside; observe from a second item's callback
-                it = DebugBatchItem(nm, 3)
+                it = DebugBatchItem(nm, v)
                 it2 = DebugBatchItem(nm, 4)
                 it.on_computed.subscribe(lambda _f: pick(it.batch, it2))
                 it.value()
             else:
                 b = HBatch(on_flush=lambda b: pick(b, b.items[0]))
-                it = HItem(b, 1)
+                it = HItem(b, v)
                 it.value()
         elif state == "flushed":
             if dbg:
-                it = DebugBatchItem(nm, 3)
+                it = DebugBatchItem(nm, v)
                 b = it.batch
                 it.value()
             else:
                 b = HBatch()
-                it = HItem(b, 1)
+                it = HItem(b, v)
                 it.value()
             pick(b, it)
         elif state == "cancelled":
             if dbg:
-                it = DebugBatchItem(nm, 3)
+                it = DebugBatchItem(nm, v)
                 b = it.batch
             else:
                 b = HBatch()
-                it = HItem(b, 1)
+                it = HItem(b, v)
             b.cancel()
             pick(b, it)
         elif state == "flush-failed":
-            b = HBatch(fail=True)
-            it = HItem(b, 1)
+            b = HBatch(fail=True, fail_with=v)
+            it = HItem(b, v)
             b.flush()
             pick(b, it)
         elif state == "not-set":
@@ -1127,11 +1402,11 @@ def cell(name):
             pick(b, it)
         elif state == "reset":
             if dbg:
-                it = DebugBatchItem(nm, 3)
+                it = DebugBatchItem(nm, v)
                 b = it.batch
             else:
                 b = HBatch()
-                it = HItem(b, 1)
+                it = HItem(b, v)
             it.value()
             b.reset_unsafe()
             it.reset_unsafe()
@@ -1142,9 +1417,9 @@ def cell(name):
             @asynq_dec()
             def body():
                 if dbg:
-                    it = DebugBatchItem(nm, 3)
+                    it = DebugBatchItem(nm, v)
                 else:
-                    it = HItem(HBatch(), 1)
+                    it = HItem(HBatch(), v)
                 got["it"] = it
                 got["b"] = it.batch
                 yield it
@@ -1199,19 +1474,19 @@ def cell(name):
         else:
             raise ValueError(name)
     elif kind == "Scoped":
-        sv = AsyncScopedValue(1)
+        sv = AsyncScopedValue(v if state == "default" else 1)
         if state == "default":
             k(sv)
         elif state == "set":
-            sv.set("x")
+            sv.set(v)
             k(sv)
         elif state == "overridden":
-            with sv.override(5):
+            with sv.override(v):
                 k(sv)
         elif state == "overridden-in-task":
             @asynq_dec()
             def body():
-                with sv.override(6):
+                with sv.override(v):
                     yield tsk.asynq(1)
                     k(sv)
             body()
@@ -1219,7 +1494,7 @@ def cell(name):
             raise ValueError(name)
     elif kind == "Override":
         sv = AsyncScopedValue(1)
-        ov = sv.override(5)
+        ov = override_of(sv.override(v), v)
         if state == "fresh":
             k(ov)
         elif state == "active":
@@ -1239,7 +1514,7 @@ def cell(name):
         else:
             raise ValueError(name)
     elif kind == "PropOverride":
-        po = async_override(Holder(), "p", 2)
+        po = override_of(async_override(Holder(), "p", v), v)
         if state == "fresh":
             k(po)
         elif state == "active":
@@ -1276,7 +1551,7 @@ def cell(name):
         else:
             raise ValueError(name)
     elif kind == "Value":
-        k(Value(3))
+        k(Value(v))
     else:
         raise ValueError(name)
     if not res:
@@ -1287,7 +1562,7 @@ def cell(name):
 def run_repr(tree, meta):
     name = meta.get("cell")
     if name:
-        r = cell(name)
+        r = cell(name, mkval(meta["payload"]) if meta.get("payload") is not None else 3)
         if r is None:
             return {"out": {"NotDriven": [S(name)]}, "obs": {"cell": name, "driven": False}}
         out, obs, seen = r
@@ -1307,6 +1582,7 @@ def run_case(c):
     k, a = ctor(c["tree"])
     meta = c.get("meta") or {}
     scheduler.reset()
+    _installed.clear()
     if k == "CFilter":
         return run_filter(a[0])
     if k == "CChain":
